@@ -88,7 +88,7 @@ class Ctx:
     def cfg(self, fi: FuncInfo) -> CFG:
         k = (fi.module.relpath, fi.qualname, fi.kind)
         if k not in self._cfg:
-            self._cfg[k] = CFG(fi)
+            self._cfg[k] = CFG(fi, self.model)
         return self._cfg[k]
 
     def canon(self, fi: FuncInfo, opts: Optional[CanonOptions] = None) -> tuple:
@@ -169,8 +169,7 @@ def finish(prop: str, tier: str, ctx: Ctx, err: Optional[str], t0: float, extra:
         for k, v in f.details.items():
             print(f"    {k}: {v}")
         print(f"VIOLATION property={prop} replay={path}")
-        if rc == 0:
-            rc = 1
+        rc = 1   # a reported violation wins over an analysis error of another rule
 
     if write_evidence:
         write_evidence_file(prop, tier, ctx, err, new, listed, t0, extra, seed)
